@@ -69,18 +69,6 @@ func allConfigs(thorough bool) []*config {
 	nc := poolDef{"noncanonical-1.0", reps("1", "1.0f(-0++)"), nil}
 	add(nc.name, collMap, nc, 1, 2, 2)
 	add(nc.name, collSet, nc, 1, 2, 2)
-	for i, p := range pools {
-		add(p.name, collMap, p, 2, 0, 2)
-		add(p.name, collSet, p, 2, 0, 2)
-		if i == 0 {
-			c := add("kinds/"+p.name, collMap, p, 1, 0, 2)
-			c.kinds, c.cbKinds = []int{kKeys, kValues, kSymIter}, nil
-			c = add("kinds/"+p.name, collSet, p, 1, 0, 2)
-			c.kinds, c.cbKinds = []int{kEntries, kKeys, kSymIter}, nil
-		}
-	}
-	// the symbol-property table of an ordinary object (accessor and data properties, see symtab.go)
-	add("symbols", collSym, poolDef{pool: reps("sym", "sym2(same description)", "Symbol.for('a')", "Symbol.iterator")}, 2, 0, 2)
 	// every representation together (except the quarantined one), to a depth bound
 	var all []int
 	for i, d := range repDefs {
@@ -95,6 +83,18 @@ func allConfigs(thorough bool) []*config {
 	allP := poolDef{pool: all}
 	add("all-representations", collMap, allP, 1, 2, 2)
 	add("all-representations", collSet, allP, 1, 2, 2)
+	for i, p := range pools {
+		add(p.name, collMap, p, 2, 0, 2)
+		add(p.name, collSet, p, 2, 0, 2)
+		if i == 0 {
+			// the symbol-property table of an ordinary object (accessor and data properties, see symtab.go)
+			add("symbols", collSym, poolDef{pool: reps("sym", "Symbol.for('a')", "Symbol.iterator")}, 2, 0, 2)
+			c := add("kinds/"+p.name, collMap, p, 1, 0, 2)
+			c.kinds, c.cbKinds = []int{kKeys, kValues, kSymIter}, nil
+			c = add("kinds/"+p.name, collSet, p, 1, 0, 2)
+			c.kinds, c.cbKinds = []int{kEntries, kKeys, kSymIter}, nil
+		}
+	}
 	if !thorough {
 		return res
 	}
@@ -102,6 +102,7 @@ func allConfigs(thorough bool) []*config {
 		add(p.name, collMap, p, 2, 0, 2)
 		add(p.name, collSet, p, 2, 0, 2)
 	}
+	add("symbols-4", collSym, poolDef{pool: reps("sym", "sym2(same description)", "Symbol.for('a')", "Symbol.iterator")}, 2, 0, 2)
 	add("symbols-5", collSym, poolDef{pool: reps("sym", "sym2(same description)", "Symbol.for('a')", "Symbol()", "Symbol.iterator")}, 2, 0, 2)
 	ext := func(c *config) {
 		c.name += "+ext"
